@@ -119,6 +119,9 @@ def roll_kwargs(case):
     kw["time_margin"] = o["time_margin"]
     if o.get("margin_kind") == "np":      # numpy integers where Python integers are documented
         kw["pitch_margin"], kw["time_margin"] = np.int64(o["pitch_margin"]), np.int32(o["time_margin"])
+    if o.get("margin_frac"):     # a margin that is not a whole number of time units but a whole number of frames
+        m = float(o["time_margin"] + F(*o["margin_frac"]))
+        kw["time_margin"] = np.float64(m) if o.get("margin_kind") == "np" else m
     if o.get("bool_kind") == "np":
         for k in BOOL_OPTS:
             kw[k] = np.bool_(kw[k])
@@ -313,6 +316,9 @@ def spec_roll(case, lenient=False):
     if any(d < 0 for _, _, d, _ in notes) and not lenient:
         return {"status": "err", "why": "negdur"}
     tm, pm = o["time_margin"], o["pitch_margin"]
+    if o.get("margin_frac"):     # `time_margin * time_div` empty frames: only generated where that is a whole number
+        tm = tm + F(*o["margin_frac"])
+        assert F(tm * td).denominator == 1
     mn = min(n[1] for n in notes)
     mt = mn if o["remove_silence"] else min(F(0), mn)
     if pm > -1:
@@ -323,12 +329,12 @@ def spec_roll(case, lenient=False):
         lo, M = None, 128
     fr_ = []
     for p, on, du, v in notes:
-        a = rhe(td * (on - mt)) + tm * td
+        a = rhe(td * (on - mt)) + int(tm * td)
         b = a + max(1, rhe(td * du))
         fr_.append((a, b))
     last = max(b for _, b in fr_)
     if o["end_time"] is None:
-        N = last + tm * td
+        N = last + int(tm * td)
     else:
         e = td * (fr(o["end_time"]) - mt)
         if e + tm * td < last:
@@ -2131,6 +2137,20 @@ def run(ctx):
     n = 1200 if quick else 20000
     cases = [gen_roll_case(rng) for _ in range(n)]
     run_roll_stream(ctx, cases, "roll", with_coq=ok, checker="check_pianoroll_asm")
+    # margins that are a fraction of a time unit but a whole number of frames (seed l: `int(time_margin) * time_div`).
+    # Derived from the cases above (the random stream of the later streams is unchanged); oracle only: the Gallina
+    # model's margin is an integer number of time units.
+    fcases = []
+    for i, c in enumerate(cases):
+        td = c["opts"]["time_div"]
+        if td == "auto" or td % 2 or len(fcases) >= (150 if quick else 2500):
+            continue
+        c2 = jcopy(c)
+        den = 4 if td % 4 == 0 and i % 2 else 2
+        c2["opts"]["margin_frac"] = [(1, 3)[i % 3 == 0] if den == 4 else 1, den]
+        fcases.append(c2)
+    ctx.count("roll:fractional_margin_cases", len(fcases))
+    run_roll_stream(ctx, fcases, "frac_margin", with_coq=False)
     # score-like and performance-like objects in front of the same function
     ocases = [c for c in (gen_object_case(rng) for _ in range(120 if quick else 1500)) if c]
     run_roll_stream(ctx, ocases, "objects", with_coq=ok)
